@@ -5,6 +5,7 @@ package verifsim
 import (
 	"context"
 	"fmt"
+	"runtime"
 	"sort"
 	"strings"
 	"sync"
@@ -190,6 +191,50 @@ type cfgEpoch struct {
 	dryRun                              bool
 }
 
+// gatedPeers is the Peers double of World A: MockPeers whose GetPeers can be
+// made to stall, after it has taken its answer, when called from a goroutine
+// other than the driver's. That is the seam for "a peer-list lookup overtaken by
+// a membership change".
+type gatedPeers struct {
+	*peer.MockPeers
+	driver int64
+	mu     sync.Mutex
+	gate   chan struct{} // non-nil: the next foreign GetPeers parks on it
+	parked chan struct{} // closed when a caller has parked
+}
+
+func (g *gatedPeers) GetPeers() ([]string, error) {
+	l, err := g.MockPeers.GetPeers()
+	g.mu.Lock()
+	gate, parked := g.gate, g.parked
+	if gate != nil && goid() != g.driver {
+		g.gate, g.parked = nil, nil
+	} else {
+		gate = nil
+	}
+	g.mu.Unlock()
+	if gate != nil {
+		close(parked)
+		<-gate
+	}
+	return l, err
+}
+
+// arm makes the next GetPeers from a refinery goroutine stall; it returns the
+// channel to close to let it go on and one that is closed once a caller stalls.
+func (g *gatedPeers) arm() (release chan struct{}, parked chan struct{}) {
+	g.mu.Lock()
+	defer g.mu.Unlock()
+	g.gate, g.parked = make(chan struct{}), make(chan struct{})
+	return g.gate, g.parked
+}
+
+func (g *gatedPeers) disarm() {
+	g.mu.Lock()
+	defer g.mu.Unlock()
+	g.gate, g.parked = nil, nil
+}
+
 // simConfig is MockConfig with its one wrong getter corrected (the mock's
 // GetAddCountsToRoot returns the AddSpanCountToRoot field; the real
 // fileConfig returns the right setting).
@@ -212,6 +257,7 @@ type worldA struct {
 	tx    *recTx
 	met   *metrics.MockMetrics
 	peers *peer.MockPeers
+	gpeers *gatedPeers
 	sf    *sample.SamplerFactory
 	hl    *health.Health
 	start time.Time
@@ -398,7 +444,8 @@ func newWorldA(p *Plan, out *Outcome, preStart func(w *worldA)) *worldA {
 		pl = append(pl, fmt.Sprintf("http://peer%d:8081", i))
 	}
 	w.peers = peer.NewMockPeers(pl, pl[0])
-	w.sf = &sample.SamplerFactory{Config: simConfig{w.cfg}, Metrics: w.met, Logger: &logger.NullLogger{}, Peers: w.peers}
+	w.gpeers = &gatedPeers{MockPeers: w.peers, driver: goid()}
+	w.sf = &sample.SamplerFactory{Config: simConfig{w.cfg}, Metrics: w.met, Logger: &logger.NullLogger{}, Peers: w.gpeers}
 	if err := w.sf.Start(); err != nil {
 		out.Harness = "sampler factory: " + err.Error()
 		return w
@@ -408,7 +455,7 @@ func newWorldA(p *Plan, out *Outcome, preStart func(w *worldA)) *worldA {
 	w.coll = &collect.InMemCollector{
 		Config: simConfig{w.cfg}, Clock: w.clk, Logger: &logger.NullLogger{}, Tracer: &aTracer{SimTracer: w.tr, w: w},
 		Health: w.hl, Transmission: w.tx, PeerTransmission: &recTx{w: w}, PubSub: lp, Metrics: w.met,
-		StressRelief: &collect.MockStressReliever{}, SamplerFactory: w.sf, Peers: w.peers,
+		StressRelief: &collect.MockStressReliever{}, SamplerFactory: w.sf, Peers: w.gpeers,
 		Sharder: &sharder.MockSharder{Self: &sharder.TestShard{Addr: "self"}},
 	}
 	collect.SimHeapAlloc = func(i *collect.InMemCollector, real uint64) uint64 {
@@ -766,6 +813,8 @@ func (w *worldA) schedule() time.Duration {
 				w.out.Fault("park_" + strings.SplitN(op.S, "/", 2)[0])
 			case "release":
 				w.release(op.S)
+			case "peers_race":
+				w.peersRace(op)
 			case "peers":
 				var pl []string
 				for i := int64(0); i < op.N; i++ {
@@ -778,6 +827,59 @@ func (w *worldA) schedule() time.Duration {
 		})
 	}
 	return us(last)
+}
+
+// peersRace: a lazy sampler creation on a worker looks the peer list up, is
+// overtaken by a membership change, and only then applies what it looked up.
+func (w *worldA) peersRace(op Op) {
+	release, parked := w.gpeers.arm()
+	// a root span of a new trace, decided at the next tick of its worker: if that
+	// worker has no sampler for the selector yet, it creates one now
+	w.doSpan(Op{ID: op.ID, K: "span", I: op.I, N: skRoot | op.J<<8, S: op.S})
+	w.drv.Settle()
+	tm := w.byIdx[int(op.I)]
+	tk := w.clk.Find(fmt.Sprintf("a/worker/%d", tm.worker))
+	if tk == nil {
+		w.gpeers.disarm()
+		return
+	}
+	// wait until the trace is due, then tick its worker
+	time.Sleep(w.tracesCfgTimeout() + time.Millisecond)
+	select {
+	case tk.ch <- time.Now():
+	default:
+	}
+	stalled := false
+	for i := 0; i < 20000 && !stalled; i++ {
+		select {
+		case <-parked:
+			stalled = true
+		default:
+			runtime.Gosched()
+		}
+	}
+	if !stalled {
+		// no lazy creation happened (the worker already had this sampler)
+		w.gpeers.disarm()
+		w.drv.Settle()
+		return
+	}
+	w.out.Probe("peer_lookup_overtaken_by_membership_change")
+	var pl []string
+	for i := int64(0); i < op.N; i++ {
+		pl = append(pl, fmt.Sprintf("http://peer%d:8081", i))
+	}
+	w.peerCount = int(op.N)
+	done := make(chan struct{})
+	go func() { w.peers.UpdatePeers(pl); close(done) }()
+	// the membership callback either completes now or waits for the factory's
+	// lock, which the stalled creation may hold
+	for i := 0; i < 5000; i++ {
+		runtime.Gosched()
+	}
+	close(release)
+	<-done
+	w.drv.Settle()
 }
 
 // release lets a parked goroutine go on; a parked worker first works through
